@@ -23,6 +23,7 @@ C12_SIGS |= MULTI_SIGS
 L2M_C04 = {"l2m-not-exactly-one", "l2m-announcer-without-eligible", "l2m-winner-not-eligible"}
 L2M_C12 = {"l2m-depends-on-history-or-listing-order", "l2m-not-exactly-one"}
 C04_SIGS |= L2M_C04
+C04_SIGS |= {"speakerlist-event-without-sync"}
 C12_SIGS |= L2M_C12
 
 
@@ -49,7 +50,8 @@ def run(ctx, prop, sigs):
     if prop == "C04":
         # the candidates of the election come from SpeakerList.UsableSpeakers(): drive the real
         # function over real loopback memberlist instances (1..3 members, members leaving)
-        recs, ok2, log2 = ctx.go_harness("internal/speakerlist", ["zz_verif_sl_test.go"], "TestVerifSpeakerList$", tag="sl")
+        # + (group l2lock) the real memberlistWatchEvents fed through its event channel: every membership event is followed by a sync
+        recs, ok2, log2 = ctx.go_harness("internal/speakerlist", ["zz_verif_sl_test.go", "zz_verif_slevents_test.go"], "TestVerifSpeakerList(Events)?$", tag="sl")
         for r in recs:
             if r.get("t") == "fail" and r.get("sig") in sigs:
                 ctx.oracle_fail(r["sig"], r.get("what", ""), r.get("replay"))
@@ -63,7 +65,10 @@ def run(ctx, prop, sigs):
     import os
     ov = {"internal/layer2/zz_verif_spk.go": os.path.join(os.path.dirname(os.path.dirname(os.path.abspath(__file__))),
                                                          "harness", "internal", "layer2", "zz_verif_spk.go")}
-    recs, ok3, log3 = ctx.go_harness("speaker", ["zz_verif_bgp_test.go", "zz_verif_spk_test.go"], "TestVerifSpkMulti$",
+    # + TestVerifSpkStack (group spk): the REAL Service / Node / Config reconcilers on a fake API server in front of one speaker;
+    # its layer-2 oracle (this node answers iff it is the node elected among the eligible ones on the CURRENT objects) reports
+    # under l2-announcers-differ-from-election
+    recs, ok3, log3 = ctx.go_harness("speaker", ["zz_verif_bgp_test.go", "zz_verif_spk_test.go", "zz_verif_stack_test.go"], "TestVerifSpk(Multi|Stack)$",
                                      n=30 if ctx.tier == "quick" else 600, tag="multi", extra_overlay=ov)
     for r in recs:
         if r.get("t") == "fail" and r.get("sig") in sigs:
